@@ -47,6 +47,9 @@ EQUIV = [  # (from unit, to unit, equivalence, kwargs)
     ("g", "cm", "schwarzschild", {}), ("K", "km/s", "sound_speed", {"mu": 0.7}), ("cm/s", "K", "sound_speed", {}),
     ("cm/s", "dimensionless", "lorentz", {}), ("g/cm**3", "cm**-3", "number_density", {"mu": 1.2}),
     ("K", "erg/s/cm**2", "effective_temperature", {}),
+    # destinations and sources with an offset: the additive part must survive the in-place route too
+    ("keV", "degC", "thermal", {}), ("degC", "keV", "thermal", {}), ("cm/s", "degF", "sound_speed", {}),
+    ("erg/s/cm**2", "degC", "effective_temperature", {}), ("degF", "km/s", "sound_speed", {"mu": 0.7}),
 ]
 DTYPES = ["float64", "float64", "float64", "float32", "int64", "int32", "int16", "complex128"]
 SYSTEMS = ["mks", "cgs", "imperial", "galactic", None]
@@ -335,7 +338,17 @@ def build_templates():
     TT["np.place"] = T(lambda A, p: np.place(A["x"], np.asarray(A["x"]) > 0, A["y"]), ("x", "y"), "x", None, "ifunc")
     TT["np.put"] = T(lambda A, p: np.put(A["x"], [0], A["y"]), ("x", "y"), "x", None, "ifunc")
     TT["np.putmask"] = T(lambda A, p: np.putmask(A["x"], np.asarray(A["x"]) > 0, A["y"]), ("x", "y"), "x", None, "ifunc")
-    TT["setitem"] = T(lambda A, p: operator.setitem(A["x"], p["idx"], A["y"]), ("x", "y"), "x", None, "ifunc", ("idx",))
+    def _assigned(A, p):
+        # what x[idx] = y must leave in x, computed with the copying API only: y.to(x.units) on a copy
+        x, y = A["x"], A["y"]
+        exp = np.array(np.asarray(x), copy=True)
+        if y.units != x.units and not y.units.is_dimensionless:
+            y = y.to(x.units)
+        exp[p["idx"]] = np.asarray(y)
+        return type(x)(exp, x.units) if exp.shape != () else unyt.unyt_quantity(exp, x.units)
+
+    TT["setitem_expected"] = T(_assigned, ("x", "y"), cat="copy", params=("idx",))
+    TT["setitem"] = T(lambda A, p: operator.setitem(A["x"], p["idx"], A["y"]), ("x", "y"), "x", "setitem_expected", "ifunc", ("idx",))
     TT["setitem_scalar"] = T(lambda A, p: operator.setitem(A["x"], p["idx"], p["c"]), ("x",), "x", None, "ifunc", ("idx", "c"))
     TT["m.fill"] = T(lambda A, p: A["x"].fill(p["c"]), ("x",), "x", None, "ifunc", ("c",))
     TT["m.sort"] = T(lambda A, p: A["x"].sort(), ("x",), "x", None, "ifunc")
@@ -358,7 +371,14 @@ def build_templates():
     TT["u_rdiv_scalar"] = T(lambda A, p: p["c"] / A["x"].units, ("x",), cat="unit", params=("c",))
     TT["u_pow_u"] = T(lambda A, p: A["x"].units ** A["y"].units, ("x", "y"), cat="unit")
     TT["u_has_equiv"] = T(lambda A, p: A["x"].units.has_equivalent(p["equiv"]), ("x",), cat="unit", params=("equiv",))
-    TT["u_list_equiv"] = T(lambda A, p: A["x"].units.list_equivalencies(), ("x",), cat="unit")
+    def _quiet(f):
+        import contextlib
+        import io
+
+        with contextlib.redirect_stdout(io.StringIO()):
+            return f()
+
+    TT["u_list_equiv"] = T(lambda A, p: _quiet(A["x"].units.list_equivalencies), ("x",), cat="unit")
     TT["uq_from_x"] = T(lambda A, p: unyt.unyt_quantity(A["x"], A["x"].units), ("x",), cat="copy")
     TT["uq_from_str"] = T(lambda A, p: unyt.unyt_quantity.from_string(str(A["x"].sum())), ("x",), cat="copy")
     TT["uconcatenate_mixed"] = T(lambda A, p: unyt.uconcatenate([A["x"], np.asarray(A["y"])]), ("x", "y"), cat="func")
